@@ -125,8 +125,30 @@ var (
 	// WordSources is how a word is spelled in the template when that differs from its text: w4 uses character
 	// references in static text (the generator writes them through, the browser decodes them)
 	WordSources = map[string]string{"w4": "a&nbsp;b&lt;c&amp;d"}
-	RawContents = map[string]string{"style": "p{color:red}", "script": "var x = 1 < 2 && 3 > 2;"}
+	// "scriptgo" is a <script> element whose content interpolates a Go value ({{ }}): the whitespace after the
+	// interpolation is part of the script and is written through as it is
+	RawContents = map[string]string{"style": "p{color:red}", "script": "var x = 1 < 2 && 3 > 2;",
+		"scriptgo": "var a = {{ env.E(1) }}  \t;var b = [{{ env.E(1) }} , 2];"}
 )
+
+// RawElement is the element name of a raw node kind.
+func RawElement(name string) string {
+	if name == "scriptgo" {
+		return "script"
+	}
+	return name
+}
+
+// RawRendered is the content a raw element renders: interpolated Go values appear as JSON (second key:
+// encoding/json with HTML escaping, which is what a script context requires).
+func RawRendered(name string) string {
+	c := RawContents[name]
+	if name == "scriptgo" {
+		js, _ := json.Marshal(ExprValues["E1"])
+		c = strings.ReplaceAll(c, "{{ env.E(1) }}", string(js))
+	}
+	return c
+}
 
 // Variant selects one concrete spelling of the same abstract program.
 //
@@ -146,7 +168,8 @@ const (
 	OddExprComment                    // string expression followed by a block comment inside the braces: { e /* c */ }
 	OddCallBlockOneLine               // component call with a child block written on one line: @wrap() { <b>x</b> }
 	OddCommentBeforeTempl             // file level: a Go block ending in an INDENTED // comment directly in front of `templ`
-	OddAll                = OddGoCodeTwo | OddCondOneLine | OddExprComment | OddCallBlockOneLine | OddCommentBeforeTempl
+	OddHeaderSpansLines               // if / else if / for header whose Go expression spans lines (continuation lines indented)
+	OddAll                = OddGoCodeTwo | OddCondOneLine | OddExprComment | OddCallBlockOneLine | OddCommentBeforeTempl | OddHeaderSpansLines
 )
 
 type printer struct {
@@ -358,10 +381,14 @@ func (p *printer) node(n Node, depth int) {
 		p.ws(n.Tr, depth)
 	case "if":
 		for i, b := range n.Brs {
+			cond := fmt.Sprintf("env.C(%s)", num(b.C))
+			if p.v == 3 && p.odd&OddHeaderSpansLines != 0 {
+				cond += " &&\n" + strings.Repeat("\t", depth+2) + "env.True()"
+			}
 			if i == 0 {
-				fmt.Fprintf(&p.sb, "if env.C(%s) {", num(b.C))
+				fmt.Fprintf(&p.sb, "if %s {", cond)
 			} else {
-				fmt.Fprintf(&p.sb, "} else if env.C(%s) {", num(b.C))
+				fmt.Fprintf(&p.sb, "} else if %s {", cond)
 			}
 			p.body(b.Body, depth)
 		}
@@ -372,7 +399,12 @@ func (p *printer) node(n Node, depth int) {
 		p.sb.WriteString("}")
 		p.ws("v", depth)
 	case "for":
-		fmt.Fprintf(&p.sb, "for range env.L(%s) {", num(n.L))
+		if p.v == 3 && p.odd&OddHeaderSpansLines != 0 {
+			in := strings.Repeat("\t", depth+1)
+			fmt.Fprintf(&p.sb, "for range env.L(\n%s\t%s,\n%s) {", in, num(n.L), in)
+		} else {
+			fmt.Fprintf(&p.sb, "for range env.L(%s) {", num(n.L))
+		}
 		p.body(n.Body, depth)
 		p.sb.WriteString("}")
 		p.ws("v", depth)
@@ -457,7 +489,7 @@ func (p *printer) node(n Node, depth int) {
 			p.ws("v", depth)
 		}
 	case "raw":
-		p.sb.WriteString("<" + n.Name + ">" + RawContents[n.Name] + "</" + n.Name + ">")
+		p.sb.WriteString("<" + RawElement(n.Name) + ">" + RawContents[n.Name] + "</" + RawElement(n.Name) + ">")
 		p.ws(n.After, depth)
 	case "doctype":
 		p.sb.WriteString("<!DOCTYPE html>")
@@ -568,9 +600,9 @@ func HeaderV(pkg string, v Variant) string {
 	h := Header(pkg)
 	switch v {
 	case 0:
-		return h + "script greet(a string) {\n\talert(a);\n}\n\ncss boxed() {\n\tcolor: red;\n}\n\n"
+		return h + "script greet(a string) {\n\talert(a);\n}\n\ncss boxed() {\n\tcolor: red;\n\t--brandColor: blue;\n}\n\ncss tinted(c string) {\n\t--accentColor: { c };\n}\n\n"
 	default:
-		return h + "script greet(a string) {\n\talert(a);\n\t}\n\ncss boxed() {\n\tcolor: red;\n\t}\n\n"
+		return h + "script greet(a string) {\n\talert(a);\n\t}\n\ncss boxed() {\n\tcolor: red;\n\t--brandColor: blue;\n\t}\n\ncss tinted(c string) {\n\t--accentColor: { c };\n\t}\n\n"
 	}
 }
 
